@@ -16,6 +16,9 @@ LEVEL = "model_checking"
 WITNESSES = ["curves_of_a_prepared_converted_crop", "late_season_rewatering_of_a_live_canopy", "stress_reduced_growth_coefficient", "ks_strictly_between_0_and_1", "ks_full_stress", "et0_adjustment_switched_off", "cold_coefficient_partial", "heat_coefficient_zero", "gdd_clipped_low", "gdd_clipped_high",
              "growth_curve_decay_stage", "decline_curve_reaches_zero", "inverse_checked", "fco2_above_1", "fco2_below_1", "fco2_season_reset_site", "fco2_overridden_sink_strength", "aeration_stress_active", "aeration_switched_off_crop", "growth_curve_starts_in_decay_stage", "fco2_overridden_water_productivity"]
 NONTRIVIAL = WITNESSES
+# every family must really have run (a family that cannot initialise only leaves a note): without these the run is vacuous
+REQUIRED_WITNESSES = ["ks_strictly_between_0_and_1", "aeration_stress_active", "cold_coefficient_partial", "gdd_clipped_low", "inverse_checked", "fco2_above_1", "fco2_season_reset_site",
+                      "late_season_rewatering_of_a_live_canopy", "curves_of_a_prepared_converted_crop"]
 TOL = 1e-12
 
 
@@ -61,8 +64,6 @@ def run(scn):
 
     crop = Crop(name, planting_date="05/01")
     if scn.get("prepared"):
-        from .. import spec as S
-
         sen, mat = int(crop.SenescenceCD), int(crop.MaturityCD)
         kw = {"SwitchGDD": 1}
         if scn["prepared"] == "switch_cut_green":
@@ -290,6 +291,7 @@ def run(scn):
                 m._initialize()
             except Exception:  # noqa: BLE001
                 res["notes"].append("initialisation failed in fco2 family")
+                hit("fco2_family_initialisation_failed")
                 continue
             ps, ck = m._param_struct, m._clock_struct
             for site in ("first_season", "season_reset"):
